@@ -240,6 +240,52 @@ def body_end_to_end(ctx, kind):
     elif kind == 'nothing':
         ds = xarray.Dataset({'v': (('a',), numpy.zeros(3))})
         expect = None
+    elif kind == 'thin_subclass':
+        # an extra convention written as a small subclass of a built-in one: it only swaps the topology helper and
+        # inherits everything else, detection included
+        from functools import cached_property
+        from emsarray.conventions import _registry
+        from emsarray.conventions.grid import CFGrid2D, CFGrid2DTopology
+
+        class NavTopology(CFGrid2DTopology):
+            @cached_property
+            def latitude_name(self):
+                if 'nav_lat' in self.dataset.variables:
+                    return 'nav_lat'
+                raise ValueError('no nav_lat')
+
+            @cached_property
+            def longitude_name(self):
+                if 'nav_lon' in self.dataset.variables:
+                    return 'nav_lon'
+                raise ValueError('no nav_lon')
+
+        class NavGrid(CFGrid2D):
+            topology_class = NavTopology
+        jj, ii = numpy.meshgrid(numpy.arange(2.0), numpy.arange(3.0), indexing='ij')
+        ds = xarray.Dataset({'nav_lat': (('y', 'x'), 10 + jj), 'nav_lon': (('y', 'x'), 100 + ii), 't': (('y', 'x'), numpy.zeros((2, 3)))})
+        expect = 'NavGrid'
+        if removed:
+            ds = ds.drop_vars('nav_lat')
+            expect = None
+        reg = _registry.registry
+        before = list(reg.registered_conventions)
+        reg.add_convention(NavGrid)
+        try:
+            cls = get_dataset_convention(ds)
+            ctx.check((cls.__name__ if cls else None) == expect, f'{kind}: detected convention')
+            plain = builders.cf2d(2, 3)
+            got = get_dataset_convention(plain)
+            ctx.check(got is not None and got.__name__ == 'CFGrid2D', 'a plain CF grid is not claimed by the extra convention (it finds no nav_lat / nav_lon there)')
+            if expect:
+                ctx.check(type(ds.ems).__name__ == expect and len(ds.ems.polygons) == 6, 'the accessor binds the detected convention')
+        finally:
+            reg.registered_conventions[:] = before
+            try:
+                del reg.conventions
+            except AttributeError:
+                pass
+        return
     cls = get_dataset_convention(ds)
     if expect == 'not UGrid':
         # (the node coordinates alone still make it a generic CF grid; it must just not be taken for a mesh)
@@ -344,6 +390,7 @@ def cases(tier):
     for kind in ('cf1d', 'cf2d', 'shoc_simple', 'shoc_simple_i', 'shoc_simple_j', 'shoc_standard', 'shoc_standard_xgrid', 'shoc_standard_ycentre',
                  'ugrid_marker', 'ugrid_mesh', 'nothing'):
         yield Case(f'detect:{kind}', body_end_to_end, dict(kind=kind), max_paths=10)
+    yield Case('detect:thin_subclass', body_end_to_end, dict(kind='thin_subclass'), max_paths=10)
     for conv in ('cf1d', 'ugrid'):
         yield Case(f'history:{conv}:len{3 if q else 4}', body_history, dict(length=3 if q else 4, conv=conv), max_paths=5000, split=16)
 
